@@ -1148,7 +1148,7 @@ def run(ctx, out):
     samples = []
     features = {}
     profiles = {}
-    n_models = int(os.environ.get("VERIF_C15_MODELS") or 0) or ctx.n(80, 1500)
+    n_models = int(os.environ.get("VERIF_C15_MODELS") or 0) or ctx.n(70, 1500)
     batch = 12
     idx = 0
     tasks = []          # (phase, (ctx, cases, rngs, fixed))
@@ -1180,7 +1180,7 @@ def run(ctx, out):
     # thorough tier), plus a seed-dependent tail of random scope expressions
     scope_formulas = 0
     if not os.environ.get("VERIF_C15_NO_SCOPE"):
-        fam = S.family(ctx.rng("scope"), n_random=ctx.n(34, 510), per_template=ctx.n(3, None), rotation=ctx.seed)
+        fam = S.family(ctx.rng("scope"), n_random=ctx.n(17, 510), per_template=ctx.n(3, None), rotation=ctx.seed)
         for label, d, qs in fam:
             d = dict(d, name="S%d" % idx)
             scope_formulas += len(qs)
